@@ -47,6 +47,7 @@ type Agent struct {
 	// The request ID can be used for history lookup, retry, etc.
 	requestID string
 	finished  atomic.Bool
+	unlock    func() // releases the lock on the DAG file
 
 	lock sync.RWMutex
 }
@@ -110,7 +111,17 @@ func (a *Agent) Run(ctx context.Context) error {
 		return a.dryRun()
 	}
 
-	// Check if the DAG is already running.
+	// Check if the DAG is already running. The probe below and the bind of the
+	// socket are not atomic, so two simultaneous starts are serialized by an
+	// exclusive lock on the DAG file. It is released just before the socket is
+	// shut down, so that whoever sees the socket gone can take the lock.
+	if lock, err := os.Open(a.dag.Location); err == nil {
+		defer lock.Close()
+		a.unlock = func() { _ = lock.Close() }
+		if err := syscall.Flock(int(lock.Fd()), syscall.LOCK_EX|syscall.LOCK_NB); err != nil {
+			return fmt.Errorf("%w. file=%s", errDAGIsAlreadyRunning, a.dag.Location)
+		}
+	}
 	if err := a.checkIsAlreadyRunning(); err != nil {
 		return err
 	}
@@ -146,6 +157,9 @@ func (a *Agent) Run(ctx context.Context) error {
 
 	// Stop the socket server when finishing the DAG execution.
 	defer func() {
+		if a.unlock != nil {
+			a.unlock()
+		}
 		if err := a.socketServer.Shutdown(); err != nil {
 			a.logger.Error("Failed to shutdown socket frontend", "error", err)
 		}
